@@ -120,3 +120,11 @@ def asan_runtime():
     if not os.path.isfile(p):
         raise BootstrapError('ASan runtime not found')
     return p
+
+
+def smod(name):
+    """The spectrum sub-module `name` (several are shadowed by same-named functions
+    in the package namespace, e.g. spectrum.modcovar, spectrum.lpc)."""
+    import importlib
+    import_spectrum()
+    return importlib.import_module('spectrum.' + name)
